@@ -240,15 +240,21 @@ pub fn ambient(out: &mut impl Write) {
 
 pub fn threads(out: &mut impl Write, seed: u64, thorough: bool) {
     let n_threads = 16;
+    // the thorough tier repeats the private part with other seeds, one round after the other (each thread keeps its
+    // whole stream in memory for the comparison, so a round stays at the quick size)
+    let rounds: u64 = if thorough { 4 } else { 1 };
+    for round in 0..rounds {
     let gen = move || -> Vec<u8> {
         let mut buf: Vec<u8> = Vec::new();
-        let mut rng = Rng::new(seed ^ 0xC15);
+        let mut rng = Rng::new(seed ^ 0xC15 ^ (round << 32));
         crate::cal::utctn(&mut buf, &mut rng, false);
         crate::cal::fmt(&mut buf, &mut rng, false);
         zones::lttnew(&mut buf, &mut rng, false);
         zones::rule_lookups(&mut buf, &mut rng, false);
         zones::zone_lookups(&mut buf, &mut rng, false, false);
-        zones::find_family(&mut buf, &mut rng, thorough, true);
+        // every thread keeps its whole stream in memory for the comparison: the per-thread corpus stays at the
+        // quick size in both tiers (the thorough tier widens the shared-zone part below)
+        zones::find_family(&mut buf, &mut rng, false, true);
         crate::parse::tzif_generated(&mut buf, &mut rng, false);
         // name resolution through private settings values and a thread-private virtual file system: the same name
         // present in several directories with different contents
@@ -278,6 +284,7 @@ pub fn threads(out: &mut impl Write, seed: u64, thorough: bool) {
         Some((t, l)) => format!("DIFF thread={} line={}", t, l),
     };
     writeln!(out, "threads {} {} private => {}", n_threads, n_lines, ans).unwrap();
+    }
 
     // shared zones
     let mut rng = Rng::new(seed ^ 0x5EED);
